@@ -65,6 +65,40 @@ func verifyRedirectSignature(
 	}
 }
 
+// verifyRedirectSignatureOfQuery is verifyRedirectSignature for a request whose
+// raw query string is at hand: the signature is verified over the query as sent.
+func verifyRedirectSignatureOfQuery(
+	rawQuery func() string,
+	authRequest func() string,
+	relayState func() string,
+	sig func() string,
+	sigAlg func() string,
+	sp func() *serviceprovider.ServiceProvider,
+	errF func(error),
+) func() error {
+	return func() error {
+		if authRequest() == "" {
+			return fmt.Errorf("no authrequest provided but required")
+		}
+		if sig() == "" {
+			return fmt.Errorf("no signature provided but required")
+		}
+		if sigAlg() == "" {
+			return fmt.Errorf("no signature algorithm provided but required")
+		}
+
+		err := sp().ValidateRedirectSignatureOfQuery(
+			rawQuery(),
+			authRequest(),
+			relayState(),
+			sigAlg(),
+			sig(),
+		)
+		errF(err)
+		return err
+	}
+}
+
 func createRedirectSignature(
 	samlResponse *samlp.ResponseType,
 	key *rsa.PrivateKey,
